@@ -327,6 +327,10 @@ def _stages(chk):
         fns = [m for m in cls.methods.values() if not m.name.startswith("__")]
         if "cross" in cname:
             check_field_indices(chk, "MIRROR.stages.index", fns)
+            # the inverse maps and the accessors treat the two fields alike
+            from .fields import field_symmetry
+            field_symmetry(chk, "MIRROR.fields.symmetric", [m for m in fns if m.name in ("inverse_transform", "_inverse_transform_algorithm", "components", "scores",
+                                                                                          "components_amplitude", "components_phase", "scores_amplitude", "scores_phase")])
     chk.info["stage_chains_examined"] = total
 
 
